@@ -614,16 +614,23 @@ def rw_comp_to_loop(func, k):
     sites = []
     for owner, fld, blk in blocks_of(func):
         for s in blk:
-            if isinstance(s, ast.Assign) and len(s.targets) == 1 and isinstance(s.targets[0], ast.Name) and isinstance(s.value, ast.ListComp):
+            if isinstance(s, ast.Assign) and len(s.targets) == 1 and isinstance(s.value, ast.ListComp) and \
+                    (isinstance(s.targets[0], ast.Name) or (isinstance(s.targets[0], (ast.Subscript, ast.Attribute)) and _is_pure(s.targets[0], allow_calls=False)
+                                                             and not (_roots(s.targets[0]) & {y.id for y in ast.walk(s.value) if isinstance(y, ast.Name) and isinstance(y.ctx, ast.Store)}))):
                 sites.append((blk, s))
     if k >= len(sites):
         return False
     blk, s = sites[k]
     comp = s.value
-    name = s.targets[0].id
+    tgt = s.targets[0]
+
+    def load(t):
+        t = copy.deepcopy(t)
+        t.ctx = ast.Load()
+        return t
 
     def app(e):
-        return ast.Expr(value=ast.Call(func=ast.Attribute(value=ast.Name(id=name, ctx=ast.Load()), attr='append', ctx=ast.Load()), args=[e], keywords=[]))
+        return ast.Expr(value=ast.Call(func=ast.Attribute(value=load(tgt), attr='append', ctx=ast.Load()), args=[e], keywords=[]))
     if isinstance(comp.elt, ast.IfExp):
         inner = [ast.If(test=comp.elt.test, body=[app(comp.elt.body)], orelse=[app(comp.elt.orelse)])]
     else:
@@ -632,9 +639,97 @@ def rw_comp_to_loop(func, k):
         for c in reversed(g.ifs):
             inner = [ast.If(test=c, body=inner, orelse=[])]
         inner = [ast.For(target=g.target, iter=g.iter, body=inner, orelse=[])]
-    init = ast.Assign(targets=[ast.Name(id=name, ctx=ast.Store())], value=ast.List(elts=[], ctx=ast.Load()))
+    init = ast.Assign(targets=[copy.deepcopy(tgt)], value=ast.List(elts=[], ctx=ast.Load()))
     i = blk.index(s)
     blk[i:i + 1] = [fix(init, s), fix(inner[0], s)]
+    return True
+
+
+def _append_stmt(st):
+    if isinstance(st, ast.Expr) and isinstance(st.value, ast.Call) and isinstance(st.value.func, ast.Attribute) and st.value.func.attr == 'append' and len(st.value.args) == 1 \
+            and not st.value.keywords and _is_pure(st.value.func.value, allow_calls=False):
+        return st.value.func.value, st.value.args[0]
+    return None, None
+
+
+def rw_append_comp_to_loop(func, k):
+    """T.append([E for a in A])    ->    T.append([]) ; for a in A: T[-1].append(E)"""
+    sites = []
+    for owner, fld, blk in blocks_of(func):
+        for st in blk:
+            t, v = _append_stmt(st)
+            if t is not None and isinstance(v, ast.ListComp) and len(v.generators) == 1 and not v.generators[0].ifs:
+                sites.append((blk, st))
+    if k >= len(sites):
+        return False
+    blk, st = sites[k]
+    t, v = _append_stmt(st)
+    g = v.generators[0]
+    bound = {y.id for y in ast.walk(g.target) if isinstance(y, ast.Name)}
+    par = parents_of(func)
+    inside = {id(y) for y in ast.walk(v)}
+    if not all(_free_loop_name(func, b_, inside, par) for b_ in bound) or (_roots(t) & bound):
+        return True
+    last = ast.Subscript(value=copy.deepcopy(t), slice=ast.UnaryOp(op=ast.USub(), operand=ast.Constant(value=1)), ctx=ast.Load())
+    inner = ast.Expr(value=ast.Call(func=ast.Attribute(value=last, attr='append', ctx=ast.Load()), args=[v.elt], keywords=[]))
+    loop = ast.For(target=g.target, iter=g.iter, body=[inner], orelse=[])
+    for y in ast.walk(loop.target):
+        if hasattr(y, 'ctx'):
+            y.ctx = ast.Store()
+    first = ast.Expr(value=ast.Call(func=ast.Attribute(value=copy.deepcopy(t), attr='append', ctx=ast.Load()), args=[ast.List(elts=[], ctx=ast.Load())], keywords=[]))
+    i = blk.index(st)
+    blk[i:i + 1] = [fix(first, st), fix(loop, st)]
+    return True
+
+
+def rw_split_append_concat(func, k):
+    """T.append([a, ...] + B)    ->    T.append([a, ...]) ; T[-1] += B        (lists: extending in place gives the same list)"""
+    sites = []
+    for owner, fld, blk in blocks_of(func):
+        for st in blk:
+            t, v = _append_stmt(st)
+            if t is not None and isinstance(v, ast.BinOp) and isinstance(v.op, ast.Add) and isinstance(v.left, ast.List):
+                sites.append((blk, st))
+    if k >= len(sites):
+        return False
+    blk, st = sites[k]
+    t, v = _append_stmt(st)
+    last = ast.Subscript(value=copy.deepcopy(t), slice=ast.UnaryOp(op=ast.USub(), operand=ast.Constant(value=1)), ctx=ast.Store())
+    aug = ast.AugAssign(target=last, op=ast.Add(), value=v.right)
+    st.value.args[0] = v.left
+    blk.insert(blk.index(st) + 1, fix(aug, st))
+    return True
+
+
+def rw_enumerate_to_index(func, k):
+    """for i, x in enumerate(S): B     ->    for i in range(len(S)): B[x := S[i]]       (S a name that B does not change)"""
+    sites = [n for n in ast.walk(func) if isinstance(n, (ast.For, ast.comprehension)) and isinstance(n.iter, ast.Call) and isinstance(n.iter.func, ast.Name) and n.iter.func.id == 'enumerate'
+             and len(n.iter.args) == 1 and not n.iter.keywords and isinstance(n.target, ast.Tuple) and len(n.target.elts) == 2 and all(isinstance(t, ast.Name) for t in n.target.elts)
+             and _is_pure(n.iter.args[0], allow_calls=False) and isinstance(n.iter.args[0], (ast.Name, ast.Subscript, ast.Attribute))]
+    if k >= len(sites):
+        return False
+    g = sites[k]
+    par = parents_of(func)
+    owner = par.get(g) if isinstance(g, ast.comprehension) else g
+    iv, xv = g.target.elts[0].id, g.target.elts[1].id
+    seq = g.iter.args[0]
+    roots = _roots(seq)
+    for y in ast.walk(owner):
+        if any(y is z for z in ast.walk(g.target)):
+            continue
+        if isinstance(y, ast.Name) and isinstance(y.ctx, (ast.Store, ast.Del)) and (y.id in roots or y.id in (iv, xv)):
+            return True
+        if isinstance(y, ast.Call) and isinstance(y.func, ast.Attribute) and y.func.attr in MUTATORS and (_roots(y.func.value) & roots) and ast.unparse(y.func.value) == ast.unparse(seq):
+            return True
+    if isinstance(g, ast.For):
+        inside = {id(y) for y in ast.walk(g)}
+        if not _free_loop_name(func, xv, inside, par):
+            return True
+    for y in list(ast.walk(owner)):
+        if isinstance(y, ast.Name) and y.id == xv and isinstance(y.ctx, ast.Load):
+            replace_node(owner, y, fix(ast.Subscript(value=copy.deepcopy(seq), slice=ast.Name(id=iv, ctx=ast.Load()), ctx=ast.Load()), y))
+    g.target = fix(ast.Name(id=iv, ctx=ast.Store()), g.target)
+    g.iter = fix(ast.Call(func=ast.Name(id='range', ctx=ast.Load()), args=[ast.Call(func=ast.Name(id='len', ctx=ast.Load()), args=[copy.deepcopy(seq)], keywords=[])], keywords=[]), g.iter)
     return True
 
 
@@ -1278,6 +1373,105 @@ def rw_comp_over_collected(func, k):
     return True
 
 
+def _static_len(func, e, depth=0):
+    """number of elements of a sequence expression when the source fixes it, as an expression: a constant (literal, range(c)) or
+    len(<name>) for a name that is never rebound or resized; comprehensions without filter, np.array(...) and zip of equally long
+    sequences inherit the length of what they run over"""
+    if depth > 10:
+        return None
+    if isinstance(e, (ast.List, ast.Tuple)) and not any(isinstance(x, ast.Starred) for x in e.elts):
+        return ast.Constant(value=len(e.elts))
+    if isinstance(e, ast.Call) and isinstance(e.func, ast.Name) and e.func.id == 'range' and len(e.args) == 1 and isinstance(e.args[0], ast.Constant) and isinstance(e.args[0].value, int):
+        return ast.Constant(value=max(0, e.args[0].value))
+    if isinstance(e, ast.Call) and isinstance(e.func, ast.Name) and e.func.id == 'range' and len(e.args) == 1 and isinstance(e.args[0], ast.Call) and isinstance(e.args[0].func, ast.Name) \
+            and e.args[0].func.id == 'len' and len(e.args[0].args) == 1:
+        return _static_len(func, e.args[0].args[0], depth + 1)
+    if isinstance(e, ast.ListComp) and len(e.generators) == 1 and not e.generators[0].ifs:
+        return _static_len(func, e.generators[0].iter, depth + 1)
+    if isinstance(e, ast.Call) and ast.unparse(e.func) in ('np.array', 'np.asarray', 'list', 'tuple', 'anp.array') and len(e.args) >= 1:
+        return _static_len(func, e.args[0], depth + 1)
+    if isinstance(e, ast.Call) and isinstance(e.func, ast.Name) and e.func.id == 'zip' and e.args:
+        ls = [_static_len(func, a, depth + 1) for a in e.args]
+        if None in ls or len({ast.dump(x) for x in ls}) != 1:
+            return None
+        return ls[0]
+    if isinstance(e, ast.Name):
+        whole = getattr(Ctx, 'whole_func', None)
+        if whole is not None and getattr(whole, 'name', None) == getattr(func, 'name', None):
+            func = whole
+        if any(isinstance(c, ast.Call) and isinstance(c.func, ast.Attribute) and c.func.attr in MUTATORS and ast.unparse(c.func.value) == e.id for c in ast.walk(func)):
+            return None
+        if any(isinstance(n, (ast.AugAssign, ast.Delete)) and any(isinstance(y, ast.Name) and y.id == e.id for y in ast.walk(n.target if isinstance(n, ast.AugAssign) else ast.Tuple(elts=n.targets))) for n in ast.walk(func)):
+            return None
+        defs = [n for n in ast.walk(func) if isinstance(n, ast.Name) and n.id == e.id and isinstance(n.ctx, (ast.Store, ast.Del))]
+        if not defs:
+            # a parameter (or outer name) that is never rebound: its length is whatever it is, but it is one length
+            return ast.Call(func=ast.Name(id='len', ctx=ast.Load()), args=[ast.Name(id=e.id, ctx=ast.Load())], keywords=[])
+        if len(defs) != 1:
+            return None
+        for st in ast.walk(func):
+            if isinstance(st, ast.Assign) and len(st.targets) == 1 and st.targets[0] is defs[0]:
+                r = _static_len(func, st.value, depth + 1)
+                if r is None and isinstance(st.value, (ast.ListComp, ast.Call, ast.List)):
+                    return None
+                return r
+    return None
+
+
+def rw_zip_to_index(func, k):
+    """for a, b in zip(X, Y): B      ->     for i in range(N): B[a := X[i], b := Y[i]]      (X, Y names whose length N is fixed by
+    the source and equal; a, b only read)"""
+    sites = []
+    _par = parents_of(func)
+    for n in ast.walk(func):
+        if isinstance(n, (ast.For, ast.comprehension)) and isinstance(n.iter, ast.Call) and isinstance(n.iter.func, ast.Name) and n.iter.func.id == 'zip' and len(n.iter.args) >= 2 \
+                and isinstance(n.target, ast.Tuple) and len(n.target.elts) == len(n.iter.args) and all(isinstance(t, ast.Name) for t in n.target.elts) \
+                and all(isinstance(a, ast.Name) for a in n.iter.args):
+            scope, q_ = func, _par.get(n)
+            while q_ is not None and q_ is not func:
+                if isinstance(q_, FuncDef):
+                    scope = q_
+                    break
+                q_ = _par.get(q_)
+            N = _static_len(scope, n.iter)
+            if N is not None:
+                sites.append((n, N))
+    if k >= len(sites):
+        return False
+    g, N = sites[k]
+    par = parents_of(func)
+    owner = par.get(g) if isinstance(g, ast.comprehension) else g
+    tnames = [t.id for t in g.target.elts]
+    seqs = [a.id for a in g.iter.args]
+    scope = [owner]
+    inner = [y for y in ast.walk(owner) if y is not g.target and not any(y is z for z in ast.walk(g.target))]
+    if any(isinstance(y, ast.Name) and y.id in tnames + seqs and isinstance(y.ctx, (ast.Store, ast.Del)) for y in inner):
+        return True
+    if isinstance(g, ast.For):
+        # the loop variables must be dead after the loop
+        inside = {id(y) for y in ast.walk(g)}
+        if not all(_free_loop_name(func, t, inside, par) for t in tnames):
+            return True
+    iv = '_zi%d' % getattr(owner, 'lineno', 0)
+    sub = {t: q for t, q in zip(tnames, seqs)}
+    for y in list(ast.walk(owner)):
+        if isinstance(y, ast.Name) and y.id in sub and isinstance(y.ctx, ast.Load) and not any(y is z for z in ast.walk(g.iter)):
+            replace_node(owner, y, fix(ast.Subscript(value=ast.Name(id=sub[y.id], ctx=ast.Load()), slice=ast.Name(id=iv, ctx=ast.Load()), ctx=ast.Load()), y))
+    g.target = fix(ast.Name(id=iv, ctx=ast.Store()), g.target)
+    g.iter = fix(ast.Call(func=ast.Name(id='range', ctx=ast.Load()), args=[copy.deepcopy(N)], keywords=[]), g.iter)
+    return True
+
+
+def rw_subscripted_literal(func, k):
+    """(a, b)[i]   <->   [a, b][i]"""
+    sites = [n for n in ast.walk(func) if isinstance(n, ast.Subscript) and isinstance(n.ctx, ast.Load) and isinstance(n.value, (ast.Tuple, ast.List)) and not isinstance(n.slice, ast.Slice)]
+    if k >= len(sites):
+        return False
+    n = sites[k]
+    n.value = fix((ast.List if isinstance(n.value, ast.Tuple) else ast.Tuple)(elts=n.value.elts, ctx=ast.Load()), n.value)
+    return True
+
+
 def rw_items_loop(func, k):
     """for key, val in D.items(): ... val ...    ->    for key in D: ... D[key] ..."""
     sites = [n for n in ast.walk(func) if isinstance(n, (ast.For, ast.comprehension)) and isinstance(n.target, ast.Tuple) and len(n.target.elts) == 2
@@ -1604,6 +1798,7 @@ def rw_try_tail_in(func, k):
 
 
 class Ctx:
+    whole_func = None
     helpers = {}
     nested_sigs = {}
     ref_counter = Counter()
@@ -1668,7 +1863,18 @@ def rw_extract_temp(func, k):
                 expanded.append((block_of[id(p)], p, e))
                 hops += 1
             elif isinstance(p, (ast.For, ast.While)):
-                break
+                # only a literal without any name may leave a loop (it has the same value in every iteration)
+                if id(p) in block_of and isinstance(e, (ast.List, ast.Tuple, ast.Constant, ast.Dict, ast.Set)) and not any(isinstance(y, (ast.Name, ast.Call, ast.Attribute)) for y in ast.walk(e)):
+                    expanded.append((block_of[id(p)], p, e))
+                    hops += 1
+                elif id(p) in block_of and isinstance(e, ast.Call) and isinstance(e.func, ast.Name) and e.func.id == 'len' and len(e.args) == 1 and isinstance(e.args[0], ast.Name) \
+                        and not any(isinstance(y, ast.Name) and y.id == e.args[0].id and isinstance(y.ctx, (ast.Store, ast.Del)) for y in ast.walk(func)) \
+                        and not any(isinstance(y, ast.Call) and isinstance(y.func, ast.Attribute) and y.func.attr in MUTATORS and ast.unparse(y.func.value) == e.args[0].id for y in ast.walk(func)):
+                    # the length of a name that is never rebound or resized is loop invariant
+                    expanded.append((block_of[id(p)], p, e))
+                    hops += 1
+                else:
+                    break
             elif isinstance(p, FuncDef) and id(p) in block_of:
                 # out of a closure: only if no operand of the expression is ever rebound or mutated in the enclosing function
                 roots_ = _roots(e)
@@ -2548,7 +2754,7 @@ def rw_inline_helper(func, k):
     return True
 
 
-GUIDED = [rw_inline_helper, rw_extract_temp, rw_flatten_comp_filter, rw_first_of_concat, rw_split_tuple_assign, rw_augcomp_to_loop, rw_len_zero, rw_bool_ifexp, rw_singleton_comp, rw_ndenumerate_value, rw_flat_to_ndenumerate, rw_slice_zero, rw_flip_compare, rw_keyword_to_positional, rw_fstring_to_percent, rw_np_all_any, rw_range_min_guard, rw_membership_container, rw_drop_default_arg, rw_unpack_first, rw_use_alias, rw_ravel_flatten, rw_last_appended, rw_pass_branch, rw_dictcomp_to_loop, rw_none_flag, rw_argcomp_to_loop, rw_hoist_return, rw_get_none, rw_else_after_exit_wrap, rw_else_after_exit_unwrap, rw_comp_to_loop, rw_loop_to_comp, rw_not_compare, rw_demorgan, rw_swap_branches, rw_merge_nested_if, rw_split_and_if, rw_guard_to_swapped_else, rw_swapped_else_to_guard, rw_drop_tail_return, rw_add_tail_return, rw_element_to_index_loop, rw_fuse_loops, rw_late_publication, rw_drop_tail_continue, rw_items_loop, rw_filter_loop, rw_loop_to_update, rw_is_false, rw_hoist_common_tail, rw_sink_common_tail, rw_try_tail_out, rw_try_tail_in, rw_genexp_loop, rw_guarded_subscript_get, rw_update_to_loop, rw_extend_to_loop, rw_comp_over_collected, rw_tail_pass_to_continue, rw_split_or_exit, rw_merge_exit_ifs, rw_unroll_const_loop, rw_drop_noop_pass, rw_ifexp_to_if, rw_if_to_ifexp, rw_bool_to_if, rw_kwargs_default, rw_trailing_return, rw_enumerate, rw_return_temp]
+GUIDED = [rw_zip_to_index, rw_inline_helper, rw_extract_temp, rw_flatten_comp_filter, rw_first_of_concat, rw_split_tuple_assign, rw_augcomp_to_loop, rw_len_zero, rw_bool_ifexp, rw_singleton_comp, rw_ndenumerate_value, rw_flat_to_ndenumerate, rw_slice_zero, rw_flip_compare, rw_keyword_to_positional, rw_fstring_to_percent, rw_np_all_any, rw_range_min_guard, rw_membership_container, rw_drop_default_arg, rw_unpack_first, rw_use_alias, rw_ravel_flatten, rw_last_appended, rw_pass_branch, rw_dictcomp_to_loop, rw_none_flag, rw_argcomp_to_loop, rw_hoist_return, rw_get_none, rw_else_after_exit_wrap, rw_else_after_exit_unwrap, rw_comp_to_loop, rw_loop_to_comp, rw_not_compare, rw_demorgan, rw_swap_branches, rw_merge_nested_if, rw_split_and_if, rw_guard_to_swapped_else, rw_swapped_else_to_guard, rw_drop_tail_return, rw_add_tail_return, rw_element_to_index_loop, rw_fuse_loops, rw_late_publication, rw_drop_tail_continue, rw_items_loop, rw_filter_loop, rw_loop_to_update, rw_is_false, rw_hoist_common_tail, rw_sink_common_tail, rw_try_tail_out, rw_try_tail_in, rw_genexp_loop, rw_guarded_subscript_get, rw_update_to_loop, rw_append_comp_to_loop, rw_split_append_concat, rw_enumerate_to_index, rw_subscripted_literal, rw_extend_to_loop, rw_comp_over_collected, rw_tail_pass_to_continue, rw_split_or_exit, rw_merge_exit_ifs, rw_unroll_const_loop, rw_drop_noop_pass, rw_ifexp_to_if, rw_if_to_ifexp, rw_bool_to_if, rw_kwargs_default, rw_trailing_return, rw_enumerate, rw_return_temp]
 
 
 def _clone(node):
@@ -2559,11 +2765,13 @@ def _clone(node):
         return copy.deepcopy(node)
 
 
+ENABLERS = {rw_subscripted_literal: [rw_extract_temp], rw_zip_to_index: [rw_extract_temp], rw_comp_to_loop: [rw_enumerate_to_index, rw_zip_to_index, rw_split_append_concat, rw_append_comp_to_loop]}
 REMOVALS = (rw_drop_tail_return, rw_drop_tail_continue, rw_drop_noop_pass)
 
 
 def _search(func, score, max_rounds, budget):
     applied = []
+    direct = {}
     base = score(func)
     evals = 0
     cold = set()
@@ -2573,27 +2781,69 @@ def _search(func, score, max_rounds, budget):
         for rw in GUIDED:
             if rw in cold and not final:
                 continue
-            best = None
-            k = 0
-            while k <= 200 and evals < budget:
-                c = _clone(func)
-                try:
-                    if not rw(c, k):
-                        break
-                    evals += 1
-                    ast.fix_missing_locations(c)
-                    s = score(c)
-                except Exception:
+            hit = False
+            for _rep in range(6):       # the same rewrite at its next best site, until it stops improving
+                best = None
+                k = 0
+                while k <= 200 and evals < budget:
+                    c = _clone(func)
+                    try:
+                        if not rw(c, k):
+                            break
+                        evals += 1
+                        ast.fix_missing_locations(c)
+                        s = score(c)
+                    except Exception:
+                        k += 1
+                        continue
+                    if s.better_than(base, removal=rw in REMOVALS) and (best is None or s.better_than(best[0], removal=rw in REMOVALS)):
+                        best = (s, c)
+                    elif rw in ENABLERS and s[0] == base[0]:
+                        # a neutral step that may enable another rewrite: one step of lookahead
+                        for rw2 in ENABLERS[rw]:
+                            # what the follow-up achieves on its own (the pair must beat it, otherwise the first step is idle)
+                            dkey = (rw2, id(base), len(applied))
+                            if dkey not in direct:
+                                d_best, k3 = base, 0
+                                while k3 <= 80 and evals < budget:
+                                    c3 = _clone(func)
+                                    try:
+                                        if not rw2(c3, k3):
+                                            break
+                                        evals += 1
+                                        ast.fix_missing_locations(c3)
+                                        s3 = score(c3)
+                                    except Exception:
+                                        k3 += 1
+                                        continue
+                                    if s3.better_than(d_best):
+                                        d_best = s3
+                                    k3 += 1
+                                direct[dkey] = d_best
+                            k2 = 0
+                            while k2 <= 80 and evals < budget:
+                                c2 = _clone(c)
+                                try:
+                                    if not rw2(c2, k2):
+                                        break
+                                    evals += 1
+                                    ast.fix_missing_locations(c2)
+                                    s2 = score(c2)
+                                except Exception:
+                                    k2 += 1
+                                    continue
+                                if s2.better_than(direct[dkey]) and (best is None or s2.better_than(best[0])):
+                                    best = (s2, c2)
+                                k2 += 1
                     k += 1
-                    continue
-                if s.better_than(base, removal=rw in REMOVALS) and (best is None or s.better_than(best[0], removal=rw in REMOVALS)):
-                    best = (s, c)
-                k += 1
-            if best is not None:
+                if best is None:
+                    break
                 base, c = best
                 func.body = c.body
                 applied.append(rw.__name__[3:])
                 progress = True
+                hit = True
+            if hit:
                 cold.discard(rw)
             else:
                 cold.add(rw)
@@ -2628,6 +2878,7 @@ def guided(func, score, max_rounds=30, budget=2500, dirty=None):
         else:
             ranges.append([i, i + 1])
     applied = []
+    Ctx.whole_func = func
     # work from the end so that indices of earlier ranges stay valid
     for a, b in reversed(ranges):
         shell = ast.FunctionDef(name=func.name, args=func.args, body=func.body[a:b], decorator_list=[], returns=None, type_comment=None, lineno=func.lineno, col_offset=0,
@@ -2644,7 +2895,11 @@ def guided(func, score, max_rounds=30, budget=2500, dirty=None):
                     if isinstance(x_, ast.Assign):
                         outside[Ctx.line_hash(x_, nm_, func)] += 1
             shell._outside_have = dict(outside)
-        ap = _search(shell, score, max_rounds, budget)
+        try:
+            sc = score.window(func, a, b) if hasattr(score, 'window') else score
+        except Exception:
+            sc = score
+        ap = _search(shell, sc, max_rounds, budget)
         if ap:
             func.body[a:b] = shell.body
             applied.extend(ap)
